@@ -29,7 +29,10 @@ FORCED = [("vi", "span", "twosink"), ("pi", "span", "twosink"), ("vi", "span", "
           ("pi", "span", "random", True), ("pi", "max_diff", "unichain", True), ("vi", "span", "random", True), ("semi", "max_diff", "random", True),
           # integer-typed initial estimates (`initial_value` returning an int): every solver must still compute in floating point
           ("semi", "max_diff", "random", False, "intinit"), ("semi", "max_diff", "unichain", False, "intinit"), ("vi", "max_diff", "random", False, "intinit"),
-          ("pi", "max_diff", "random", False, "intinit")]
+          ("pi", "max_diff", "random", False, "intinit"),
+          # values of the order 1e12 with a decision settled only by the late part of the return (gamma = 0.99, eps = 1e-3): the solver must really
+          # iterate until its documented measure is below the documented threshold
+          ("vi", "span", "latepay"), ("vi", "max_diff", "latepay")]
 
 
 def gen_case(rng, i, tier):
@@ -42,7 +45,7 @@ def gen_case(rng, i, tier):
     intinit = bool(forced and len(forced) > 4)
     spec = gen.gen_spec(rng, smax=10 if tier == "quick" else 30, kind=kind, S=(rng.randint(3, 10) if forced else None),
                         A=(rng.choice([2, 3, 4]) if near else None), near_tie=(True if near else None),
-                        denom=rng.choice([4, 8]), R=rng.choice([10, 1000] if forced else [1, 10, 1000, 10 ** 6]),
+                        denom=rng.choice([4, 8]), R=(10 ** 10 if kind == "latepay" else rng.choice([10, 1000] if forced else [1, 10, 1000, 10 ** 6])),
                         init=(True if intinit else None), tiny=(False if intinit else None))
     if intinit:
         spec["init_dtype"] = "int32"
@@ -53,6 +56,8 @@ def gen_case(rng, i, tier):
     if forced:
         g = rng.choice(["3/4", "7/8", "9/10", "15/16"])
         eps = rng.choice(["1/1000", "1/100", "1/2"])
+    if kind == "latepay":
+        g, eps = "99/100", "1/1000"
     if near:
         eps = rng.choice(["1/1000000", "1/100000"])       # far below the loss of preferring the worse copy: (R/2^18)/(1-gamma)
     op = {"op": "new", "solver": solver, "id": f"p{i}", "maxbs": rng.choice(gen.layouts_for(S)), "gamma": g, "eps": eps,
@@ -90,7 +95,7 @@ def run(tier, seed):
         ops = jobs[i % W][0]
         ops.append({"op": "problem", "id": f"p{i}", "spec": {k: v for k, v in spec.items() if not k.startswith("_")}, "_tags": spec["_tags"]})
         ops.append(dict(new, sid=f"s{i}"))
-        ops.append({"op": "solve", "sid": f"s{i}", "k": 3000 if new["solver"] != "pi" else 200, "_new": new})
+        ops.append({"op": "solve", "sid": f"s{i}", "k": (8000 if "latepay" in spec["_tags"] else 3000) if new["solver"] != "pi" else 200, "_new": new})
     impls = core.run_impl_parallel(jobs, workers=W)
     # model side: only problems + cert lines (the loop itself is tied by C08/C03); plus the model loop for dyadic gamma
     lines, meta = [], []
@@ -131,6 +136,7 @@ def run(tier, seed):
                 lines.append(pline)
                 meta.append(None)
                 lines.append(f"cert id={new['id']} gamma={new['gamma']} W={flist(Wopt, frac)} U={flist(U, frac)} pol={flist(pol)} V={di['values']}")
+                case["_wmax"] = max([abs(w) for w in Wopt] + [1])
                 meta.append((case, new, di, g, eps, d))
     model = core.run_driver(lines)
     recheck = []
@@ -163,13 +169,16 @@ def run(tier, seed):
                 ties += 1
             else:
                 viol.append(f"optimality gap {float(gmax):.6g} >= bound {float(pb):.6g}")
+        # the returned values are float64: a distance to V* / V_pi that exceeds its bound by less than the resolution of float64 at the magnitude
+        # of the values (2^-44 relative, a few dozen ulps accumulated over the sweeps) is not decidable either
+        fres = case.pop("_wmax", 1) * Fraction(1, 2 ** 44)
         if vwb is not None and not Fraction(dm["vwmax"]) < vwb:
-            if Fraction(dm["vwmax"]) <= vwb * (1 + tie):
+            if Fraction(dm["vwmax"]) <= vwb * (1 + tie) or Fraction(dm["vwmax"]) <= vwb + fres:
                 ties += 1
             else:
                 viol.append(f"|V - V*| = {float(Fraction(dm['vwmax'])):.6g} >= {float(vwb):.6g}")
         if vub is not None and not Fraction(dm["vumax"]) < vub:
-            if Fraction(dm["vumax"]) <= vub * (1 + tie):
+            if Fraction(dm["vumax"]) <= vub * (1 + tie) or Fraction(dm["vumax"]) <= vub + fres:
                 ties += 1
             else:
                 viol.append(f"|V - V_pi| = {float(Fraction(dm['vumax'])):.6g} >= {float(vub):.6g}")
